@@ -119,7 +119,7 @@ def data_slim_to_pixelization_unique_from(
 
         pix_size = 0
 
-        ip_sub_end = ip_sub_start + sub_size[ip] ** 2
+        ip_sub_end = ip_sub_start + int(sub_size[ip]) ** 2
 
         for ip_sub in range(ip_sub_start, ip_sub_end):
             for pix_interp_index in range(pix_sizes_for_sub_slim_index[ip_sub]):
